@@ -16,7 +16,7 @@ def search(ctx):
 
 
 def run(ctx):
-    ctx.extract(["precedence", "lookahead"])
+    ctx.extract(["precedence", "lookahead", "fstrtext"])
     ctx.prove(PROPS, extra_modules=["RotoV.Model.Pratt", "RotoV.Model.Literal", "RotoV.Model.FString",
                                     "RotoV.Model.LookAheadBase", "RotoV.Model.LookAhead",
                                     "RotoV.Lemmas.Pratt", "RotoV.Lemmas.Literal", "RotoV.Lemmas.LookAhead"])
@@ -36,7 +36,10 @@ def run(ctx):
         rule="operator sequences: a class is (level pattern of the operators, prefix operators present, accepted/rejected); "
              "literals: (kind, type, spelling features); identifiers: (origin, ascii/unicode, valid/invalid); "
              "comments: (shebang kind, number of comments); bracketed constructs: (path of positions outermost first, "
-             "leaf kind, parsed/rejected) and the same for the JIT evaluation; literal positions: (literal class, position)",
+             "leaf kind, parsed/rejected) and the same for the JIT evaluation; literal positions: (literal class, position); "
+             "f-string text parts: (documented / the reason the text is outside the documented grammar / evaluated, set of "
+             "features: which character follows a backslash, what follows an escaped backslash, doubled brace after an escape "
+             "or not, single brace, u/x before a brace, multi-byte)",
         search=search,
     )
 
